@@ -18,6 +18,10 @@ BUILTIN_NAMES = sorted(BUILTINS)
 WORDS = ["a", "b", "ab", "let", "(", ")", ",", ";", "=", "fn", "0x", "::", "<", ">", "é", "中", "+"]
 RANGES = [("a", "z", "m"), ("0", "9", "4"), ("A", "F", "C"), ("\\u{4e00}", "\\u{9fff}", "字")]
 STACK_OPS = ["PEEK", "POP", "PEEK_ALL", "POP_ALL", "PEEK[0..1]", "PEEK[-1..]", "DROP"]
+# terminators that can begin inside a partial match of themselves or of each other
+TERMINATORS = ["-->", "aab", "ab", "b", "abc", '\"\"\"', "中中文", "xyz", "--", "ba", "ababc", ";"]
+SLICES = ["PEEK[..]", "PEEK[1..]", "PEEK[..-1]", "PEEK[0..2]", "PEEK[-2..]", "PEEK[1..-1]", "PEEK[-1..]", "PEEK[0..1]"]
+RICH = [False]
 
 
 class Grammar:
@@ -48,9 +52,42 @@ def consuming_atom(rng, i, n):
     return ("lit", rng.pick(WORDS))
 
 
+def rich_expr(rng, i, n, depth):
+    """Shapes the first twelve corpus grammars did not have (kept apart so that their seeds still render the same text)."""
+    k = rng.below(7)
+    sub = lambda: expr(rng, i, n, depth - 1)
+    if k == 0:
+        # skip-until with one to three terminators (a skip-until node under the optimizer, in atomic context)
+        ts = []
+        for _ in range(1 + rng.below(3)):
+            t = rng.pick(TERMINATORS)
+            if t not in ts:
+                ts.append(t)
+        return ("seq", [("skipuntil", ts), ("opt", ("lit", ts[0]))])
+    if k == 1:
+        # the same text consumed either way, the alternative taken depends on what follows
+        a = consuming_atom(rng, i, n)
+        return ("alt", [("seq", [a, ("pos", ("lit", rng.pick(WORDS)))]), a])
+    if k == 2:
+        a = consuming_atom(rng, i, n)
+        return ("alt", [("seq", [a, ("builtin_raw", "EOI")]), ("seq", [a, ("neg", ("lit", rng.pick(WORDS)))]), a])
+    if k == 3:
+        return ("seq", [("push", ("lit", rng.pick(WORDS))), ("push", consuming_atom(rng, i, n)), ("push", ("lit", rng.pick(WORDS))), ("peekslice", rng.pick(SLICES)), ("stackop", "POP_ALL")])
+    if k == 4 and i > 0:
+        # a cycle whose closing edge sits only inside a lookahead
+        return ("seq", [("lit", rng.pick(WORDS)), ("opt", ("seq", [("pos", ("ref", rng.below(i + 1))), consuming_atom(rng, i, n)]))])
+    if k == 5:
+        # adjacent strings / common prefixes (concatenator, factorizer)
+        w1, w2, w3 = rng.pick(WORDS), rng.pick(WORDS), rng.pick(WORDS)
+        return ("alt", [("seq", [("lit", w1), ("lit", w2), sub()]), ("seq", [("lit", w1), ("lit", w3)]), ("lit", w1)])
+    return ("seq", [("builtin_raw", "SOI") if rng.chance(1, 3) else consuming_atom(rng, i, n), sub()])
+
+
 def expr(rng, i, n, depth):
     if depth <= 0:
         return consuming_atom(rng, i, n)
+    if RICH[0] and rng.chance(1, 4):
+        return rich_expr(rng, i, n, depth)
     k = rng.below(14)
     sub = lambda: expr(rng, i, n, depth - 1)
     body = lambda: ("seq", [consuming_atom(rng, i, n), sub()]) if rng.chance(1, 2) else consuming_atom(rng, i, n)
@@ -91,7 +128,15 @@ def expr(rng, i, n, depth):
 ODD_NAMES = ["type", "match", "loop", "mod", "fn", "self_", "gen", "Box", "Option", "rules", "generics", "pairs", "Rule", "wrapper", "unicode", "str", "usize", "r_0", "ÿ", "_x"]
 
 
-def build(seed, odd_names=False):
+def build(seed, odd_names=False, rich=False):
+    RICH[0] = rich
+    try:
+        return _build(seed, odd_names)
+    finally:
+        RICH[0] = False
+
+
+def _build(seed, odd_names=False):
     rng = SplitMix(seed)
     g = Grammar()
     n = 2 + rng.below(9)
@@ -146,8 +191,10 @@ def render_expr(e, g=None):
         return g.name(e[1]) if g else "r%d" % e[1]
     if t == "push":
         return "PUSH(%s)" % render_expr(e[1], g)
-    if t == "stackop":
+    if t == "stackop" or t == "peekslice" or t == "builtin_raw":
         return e[1]
+    if t == "skipuntil":
+        return "(!(" + " | ".join('"%s"' % x for x in e[1]) + ") ~ ANY)*"
     if t == "seq":
         return "(" + " ~ ".join(render_expr(x, g) for x in e[1]) + ")"
     if t == "alt":
@@ -180,7 +227,7 @@ def render(g):
 
 
 def grammar(seed):
-    return render(build(seed, odd_names=True))
+    return render(build(seed, odd_names=True, rich=(seed % 2 == 0)))
 
 
 def sample_expr(g, e, rng, depth, stack, sep):
@@ -252,8 +299,26 @@ def sample_expr(g, e, rng, depth, stack, sep):
                 out += sep
             out += p
         return out
-    if t in ("pos", "neg"):
+    if t in ("pos", "neg", "builtin_raw"):
         return ""
+    if t == "peekslice":
+        inner = e[1][len("PEEK["):-1]
+        lo, hi = inner.split("..")
+        n = len(stack)
+        a = int(lo) if lo else 0
+        b = int(hi) if hi else n
+        a = a + n if a < 0 else a
+        b = b + n if b < 0 else b
+        return "".join(stack[a:b]) if 0 <= a <= b <= n else ""
+    if t == "skipuntil":
+        # text over the terminators' alphabet that avoids completing one (checked), often ending in a partial match
+        alphabet = sorted(set("".join(e[1]).replace('\\', "")))
+        out = ""
+        for _ in range(rng.below(7)):
+            c = rng.pick(alphabet)
+            if not any(x.replace('\\"', '"') in (out + c) for x in e[1]):
+                out += c
+        return out
     raise ValueError(t)
 
 
